@@ -3,7 +3,11 @@
 import re, sys, itertools
 SRC = sys.argv[1] if len(sys.argv) > 1 else "/repo/src"
 def read(p): return open(f"{SRC}/{p}").read()
-def fail(what): print(f"EXTRACT-FAIL {what}"); sys.exit(2)
+class Missing(Exception):
+    pass
+
+def fail(what):
+    raise Missing(what)
 
 def matches_chars(src, fn):
     """the character literals of the `matches!` in the body of `fn` (comments and layout are immaterial)"""
@@ -23,75 +27,119 @@ def matches_chars(src, fn):
     if not chars or re.sub(r"'(\\?.)'|[\s|]", "", m2.group(1)): fail(fn + ": not a plain list of characters")
     return chars
 
-lib = read("lib.rs")
-meta = matches_chars(lib, "is_meta_character")
-ctx = matches_chars(lib, "is_contextual_meta_character")
-
-parse = read("token/parse.rs")
-m = re.search(r'fn literal\(.*?bytes::is_not\("((?:[^"\\]|\\.)*)"\)', parse, re.S)
-if not m: fail("literal stop set")
-stop = list(bytes(m.group(1), "utf-8").decode("unicode_escape"))
-lit_body = parse[parse.index("fn literal("):parse.index("fn separator(")]
-escapes = re.findall(r'combinator::value\("(.)", bytes::tag\("(.)"\)\)', lit_body)
-if not escapes or any(a != b for a, b in escapes): fail("literal escapes")
-m = re.search(r'character::none_of\("((?:[^"\\]|\\.)*)"\)', parse)
-if not m: fail("class stop set")
-class_stop = list(bytes(m.group(1), "utf-8").decode("unicode_escape"))
-
-term = read("token/variance/invariant/term.rs")
-m = re.search(r"impl Conjunction for Termination \{.*?match \(self, rhs\) \{(.*?)\n        \}", term, re.S)
-if not m: fail("termination table")
-NAMES = ["Open", "First", "Last", "Closed", "Coalescent"]
-table = {}
-for arm in re.findall(r"(.+?)=>\s*(Left|Right|Neither)\((\w+)\),", m.group(1), re.S):
-    pats, kind, res = arm
-    for pat in re.findall(r"\(([^()]+),([^()]+)\)", pats):
-        ls = [x.strip() for x in pat[0].split("|")]; rs = [x.strip() for x in pat[1].split("|")]
-        for l, r in itertools.product(ls, rs):
-            if (l, r) in table: continue   # first arm wins
-            table[(l, r)] = (kind, res)
-if set(table) != set(itertools.product(NAMES, NAMES)): fail(f"termination table incomplete: {len(table)}")
-
-rule = read("rule.rs")
-m = re.search(r"const MAX_INVARIANT_SIZE: Size = Size::new\((0x[0-9a-fA-F]+|\d+)\);", rule)
-if not m: fail("max invariant size")
-max_size = int(m.group(1), 0)
-
-# When truth tables (query.rs): first matching arm wins
-query = read("query.rs")
-WN = ["Always", "Sometimes", "Never"]
-def when_table(fn):
-    m = re.search(r"pub fn %s\(self, other: Self\) -> Self \{.*?match \(self, other\) \{(.*?)\n        \}" % fn, query, re.S)
-    if not m: fail("When::" + fn)
-    tab = {}
-    for pats, res in re.findall(r"((?:\([^()]*\)\s*\|?\s*)+)=>\s*(\w+),", m.group(1)):
-        for a, b in re.findall(r"\(\s*(\w+)\s*,\s*(\w+)\s*\)", pats):
-            for x in (WN if a == "_" else [a]):
-                for y in (WN if b == "_" else [b]):
-                    tab.setdefault((x, y), res)
-    if set(tab) != set(itertools.product(WN, WN)): fail("When::%s incomplete" % fn)
-    return tab
-when_and, when_or, when_cert = when_table("and"), when_table("or"), when_table("certainty")
-
-enc = read("encode.rs")
-m = re.search(r'const NEVER_EXPRESSION: &str = "((?:[^"\\]|\\.)*)";', enc)
-if not m: fail("NEVER_EXPRESSION")
-never_expr = m.group(1)
-m = re.search(r'#\[cfg\(unix\)\]\s*const SEPARATOR_CLASS_EXPRESSION: &str = "((?:[^"\\]|\\.)*)";', enc)
-if not m: fail("SEPARATOR_CLASS_EXPRESSION (unix)")
-sep_class = m.group(1)
-m = re.search(r'pub const ROOT_SEPARATOR_EXPRESSION: &str = "((?:[^"\\]|\\.)*)";', parse)
-if not m: fail("ROOT_SEPARATOR_EXPRESSION")
-root_sep = m.group(1)
-tokmod = read("token/mod.rs")
-m = re.search(r'#\[cfg\(any\(unix, windows\)\)\]\s*pub fn is_semantic_literal\(&self\) -> bool \{\s*matches!\(self\.text\(\)\.as_ref\(\), ((?:"[^"]*"\s*\|?\s*)+)\)', tokmod)
-if not m: fail("is_semantic_literal")
-sem_lits = re.findall(r'"([^"]*)"', m.group(1))
-
-# straight-line integer functions, translated (tools/rs2lean.py): the depth arithmetic of walks and the checked word operations
 import os
 sys.path.insert(0, os.path.dirname(os.path.abspath(__file__)))
 import rs2lean
+# ---- `match` expressions over small enums are EVALUATED, not pattern-matched as text: arm order, grouping by or-patterns,
+# wildcards and nesting are immaterial as long as the function computes the same table
+MTOK = re.compile(r"\s*(//[^\n]*|=>|[A-Za-z_][A-Za-z0-9_:]*|[(){}|,_])")
+
+def mtokens(text):
+    out, pos = [], 0
+    while pos < len(text):
+        m = MTOK.match(text, pos)
+        if not m:
+            if text[pos:].strip() == "": break
+            return None
+        pos = m.end()
+        if not m.group(1).startswith("//"): out.append(m.group(1).split("::")[-1])
+    return out
+
+class MatchEval:
+    """parses `match scrutinee { pattern => expr, ... }` (patterns: names, `_`, tuples, or-patterns at any level; expressions:
+    a name, `Ctor(name)`, a nested match) and evaluates it in an environment"""
+    def __init__(self, toks): self.t, self.i = toks, 0
+    def peek(self): return self.t[self.i] if self.i < len(self.t) else None
+    def eat(self, x=None):
+        t = self.peek()
+        if t is None or (x is not None and t != x): raise ValueError("expected %r, found %r" % (x, t))
+        self.i += 1
+        return t
+    def scrutinee(self):
+        if self.peek() == "(":
+            self.eat("(")
+            items = [self.eat()]
+            while self.peek() == ",":
+                self.eat(","); items.append(self.eat())
+            self.eat(")")
+            return tuple(items)
+        return self.eat()
+    def pattern(self):
+        alts = [self.alt()]
+        while self.peek() == "|":
+            self.eat("|"); alts.append(self.alt())
+        return ("or", alts)
+    def alt(self):
+        if self.peek() == "(":
+            self.eat("(")
+            items = [self.pattern()]
+            while self.peek() == ",":
+                self.eat(",")
+                if self.peek() == ")": break
+                items.append(self.pattern())
+            self.eat(")")
+            return ("tuple", items)
+        return ("name", self.eat())
+    def expr(self):
+        if self.peek() == "match":
+            return self.match()
+        name = self.eat()
+        if self.peek() == "(":
+            self.eat("("); arg = self.eat(); self.eat(")")
+            return ("ctor", name, arg)
+        return ("val", name)
+    def match(self):
+        self.eat("match")
+        sc = self.scrutinee()
+        self.eat("{")
+        arms = []
+        while self.peek() != "}":
+            if self.peek() == "|": self.eat("|")
+            pat = self.pattern()
+            self.eat("=>")
+            e = self.expr()
+            arms.append((pat, e))
+            if self.peek() == ",": self.eat(",")
+        self.eat("}")
+        return ("match", sc, arms)
+
+def pmatch(pat, v):
+    k = pat[0]
+    if k == "or": return any(pmatch(a, v) for a in pat[1])
+    if k == "name": return pat[1] == "_" or pat[1] == v
+    return isinstance(v, tuple) and len(v) == len(pat[1]) and all(pmatch(p, x) for p, x in zip(pat[1], v))
+
+def meval(e, env):
+    if e[0] == "val": return env.get(e[1], e[1])
+    if e[0] == "ctor": return (e[1], env.get(e[2], e[2]))
+    sc = e[1]
+    v = tuple(env[x] for x in sc) if isinstance(sc, tuple) else env[sc]
+    for pat, body in e[2]:
+        if pmatch(pat, v): return meval(body, env)
+    raise ValueError("non-exhaustive match")
+
+def fn_match(src, header_pat, what):
+    """the first `match` expression in the body of the function whose header matches header_pat, parsed"""
+    m = re.search(header_pat, src, re.S)
+    if not m: fail(what)
+    i = src.index("{", m.end() - 1)
+    depth, j = 0, i
+    while True:
+        if src[j] == "{": depth += 1
+        elif src[j] == "}":
+            depth -= 1
+            if depth == 0: break
+        j += 1
+    body = src[i + 1:j]
+    k = body.find("match")
+    toks = mtokens(body[k:]) if k >= 0 else None
+    if not toks: fail(what)
+    try:
+        return MatchEval(toks).match()
+    except ValueError as ex:
+        fail("%s: %s" % (what, ex))
+
+# straight-line integer functions, translated (tools/rs2lean.py): the depth arithmetic of walks and the checked word operations
 beh = read("walk/behavior.rs")
 wmod = read("walk/mod.rs")
 opsrs = read("token/variance/ops.rs")
@@ -134,53 +182,147 @@ for gname, fns in GROUPS.items():
     group_text[gname] = "\n".join(["import Wax.Generated", "/-! GENERATED from the Rust sources by tools/extract.py + tools/rs2lean.py; do not edit. -/",
                                     "namespace Wax.Generated", ""] + defs + ["", "end Wax.Generated"]) + "\n"
 
+
 def lchar(c):
     c = c[-1] if c.startswith("\\") and len(c) == 2 and c[1] != "\\" else ("\\" if c in ("\\\\",) else c)
     return "'\\\\'" if c == "\\" else "'\\''" if c == "'" else f"'{c}'"
-lean_name = {"Open": "open_", "First": "first", "Last": "last", "Closed": "closed", "Coalescent": "coal"}
-out = ["/-! GENERATED from the Rust sources by extract.py; do not edit. -/", "namespace Wax.Generated", ""]
-out.append(f"def metaChars : List Char := [{', '.join(lchar(c) for c in meta)}]")
-out.append(f"def contextualMetaChars : List Char := [{', '.join(lchar(c) for c in ctx)}]")
-out.append(f"def literalStopSet : List Char := [{', '.join(lchar(c) for c in stop)}]")
-out.append(f"def literalEscapes : List Char := [{', '.join(lchar(a) for a, _ in escapes)}]")
-out.append(f"def classStopSet : List Char := [{', '.join(lchar(c) for c in class_stop)}]")
-out.append(f"def maxInvariantSize : Nat := {max_size}")
-out.append("inductive T where | open_ | first | last | closed | coal deriving DecidableEq, Repr")
-out.append("inductive K where | left | right | neither deriving DecidableEq, Repr")
-out.append("def terminationTable : List (T × T × K × T) := [")
-rows = [f"  (.{lean_name[l]}, .{lean_name[r]}, .{table[(l, r)][0].lower()}, .{lean_name[table[(l, r)][1]]})" for l in NAMES for r in NAMES]
-out.append(",\n".join(rows) + "]")
-wl = {"Always": "always", "Sometimes": "sometimes", "Never": "never"}
-out.append("inductive W where | always | sometimes | never deriving DecidableEq, Repr")
-for name, tab in (("whenAnd", when_and), ("whenOr", when_or), ("whenCertainty", when_cert)):
-    out.append("def %s : List (W × W × W) := [" % name + ", ".join("(.%s, .%s, .%s)" % (wl[a], wl[b], wl[tab[(a, b)]]) for a in WN for b in WN) + "]")
+
 def lstr(x): return '"' + x.replace("\\", "\\\\").replace('"', '\\"') + '"'
-out.append("def neverExpression : String := %s" % lstr(never_expr))
-out.append("def separatorClassExpression : String := %s" % lstr(sep_class))
-out.append("def rootSeparatorExpression : String := %s" % lstr(root_sep))
-out.append("def semanticLiterals : List String := [%s]" % ", ".join(lstr(x) for x in sem_lits))
-out += ["", "/-! helpers of the straight-line integer functions translated by tools/rs2lean.py (Wax/GeneratedBehavior.lean, GeneratedJoin.lean, GeneratedOps.lean) -/", rs2lean.PRELUDE]
-out += ["", "-- obligations re-checked against the code as it is now",
- "theorem meta_eq_escapes : metaChars.all (literalEscapes.contains ·) && literalEscapes.all (metaChars.contains ·) = true := by decide",
- "theorem stop_is_meta_plus_sep_bs : literalStopSet.all (fun c => c == '/' || c == '\\\\' || metaChars.contains c) && metaChars.all (literalStopSet.contains ·) && literalStopSet.contains '/' && literalStopSet.contains '\\\\' = true := by decide",
- "theorem table_total : terminationTable.length = 25 := by decide",
- "", "end Wax.Generated"]
-tables = "\n".join(out) + "\n"
+
+lib = read("lib.rs")
+parse = read("token/parse.rs")
+
+# ---- core: what the MODEL itself imports (Wax/Generated.lean). Without it nothing can be regenerated.
+try:
+    meta = matches_chars(lib, "is_meta_character")
+    ctx = matches_chars(lib, "is_contextual_meta_character")
+    rule = read("rule.rs")
+    m = re.search(r"const MAX_INVARIANT_SIZE: Size = Size::new\((0x[0-9a-fA-F]+|\d+)\);", rule)
+    if not m: fail("max invariant size")
+    max_size = int(m.group(1), 0)
+except Missing as ex:
+    print("EXTRACT-FAIL %s" % ex)
+    sys.exit(2)
+core = ["/-! GENERATED from the Rust sources by tools/extract.py; do not edit. -/", "namespace Wax.Generated", "",
+        f"def metaChars : List Char := [{', '.join(lchar(c) for c in meta)}]",
+        f"def contextualMetaChars : List Char := [{', '.join(lchar(c) for c in ctx)}]",
+        f"def maxInvariantSize : Nat := {max_size}",
+        "", "/-! helpers of the straight-line integer functions translated by tools/rs2lean.py -/", rs2lean.PRELUDE, "", "end Wax.Generated"]
+
+# ---- tables, one generated module per group of properties that rely on them; a table that cannot be read is left out of its
+# module (its obligation then fails to elaborate, for the properties that list it only)
+table_fail = {}
+def module(name, items):
+    """items: [(what, thunk -> list of lines)]"""
+    lines = ["import Wax.Generated", "/-! GENERATED from the Rust sources by tools/extract.py; do not edit. -/", "namespace Wax.Generated", ""]
+    for what, thunk in items:
+        try:
+            lines += thunk()
+        except Missing as ex:
+            table_fail.setdefault(name, []).append(str(ex))
+    return "\n".join(lines + ["", "end Wax.Generated"]) + "\n"
+
+def chars_tables():
+    m = re.search(r'fn literal\(.*?bytes::is_not\("((?:[^"\\]|\\.)*)"\)', parse, re.S)
+    if not m: fail("literal stop set")
+    stop = list(bytes(m.group(1), "utf-8").decode("unicode_escape"))
+    lit_body = parse[parse.index("fn literal("):parse.index("fn separator(")]
+    escapes = re.findall(r'combinator::value\("(.)", bytes::tag\("(.)"\)\)', lit_body)
+    if not escapes or any(a != b for a, b in escapes): fail("literal escapes")
+    m = re.search(r'character::none_of\("((?:[^"\\]|\\.)*)"\)', parse)
+    if not m: fail("class stop set")
+    class_stop = list(bytes(m.group(1), "utf-8").decode("unicode_escape"))
+    return [f"def literalStopSet : List Char := [{', '.join(lchar(c) for c in stop)}]",
+            f"def literalEscapes : List Char := [{', '.join(lchar(a) for a, _ in escapes)}]",
+            f"def classStopSet : List Char := [{', '.join(lchar(c) for c in class_stop)}]",
+            "", "-- obligations re-checked against the code as it is now",
+            "theorem meta_eq_escapes : metaChars.all (literalEscapes.contains ·) && literalEscapes.all (metaChars.contains ·) = true := by decide",
+            "theorem stop_is_meta_plus_sep_bs : literalStopSet.all (fun c => c == '/' || c == '\\\\' || metaChars.contains c) && metaChars.all (literalStopSet.contains ·) && literalStopSet.contains '/' && literalStopSet.contains '\\\\' = true := by decide"]
+
+NAMES = ["Open", "First", "Last", "Closed", "Coalescent"]
+lean_name = {"Open": "open_", "First": "first", "Last": "last", "Closed": "closed", "Coalescent": "coal"}
+def termn_table():
+    term = read("token/variance/invariant/term.rs")
+    hdr = r"impl Conjunction for Termination \{.*?fn conjunction\(self, (\w+): Self\)"
+    mh = re.search(hdr, term, re.S)
+    if not mh: fail("termination table")
+    tm = fn_match(term, hdr + r"[^{]*\{", "termination table")
+    table = {}
+    try:
+        for l, r in itertools.product(NAMES, NAMES):
+            v = meval(tm, {"self": l, mh.group(1): r, "lhs": l})
+            if not (isinstance(v, tuple) and v[0] in ("Left", "Right", "Neither") and v[1] in NAMES): fail("termination table: unexpected value %r" % (v,))
+            table[(l, r)] = v
+    except (ValueError, KeyError) as ex:
+        fail("termination table: %s" % ex)
+    rows = [f"  (.{lean_name[l]}, .{lean_name[r]}, .{table[(l, r)][0].lower()}, .{lean_name[table[(l, r)][1]]})" for l in NAMES for r in NAMES]
+    return ["inductive T where | open_ | first | last | closed | coal deriving DecidableEq, Repr",
+            "inductive K where | left | right | neither deriving DecidableEq, Repr",
+            "def terminationTable : List (T × T × K × T) := [", ",\n".join(rows) + "]",
+            "theorem table_total : terminationTable.length = 25 := by decide"]
+
+WN = ["Always", "Sometimes", "Never"]
+wl = {"Always": "always", "Sometimes": "sometimes", "Never": "never"}
+def when_tables():
+    query = read("query.rs")
+    out = ["inductive W where | always | sometimes | never deriving DecidableEq, Repr"]
+    for fn, name in (("and", "whenAnd"), ("or", "whenOr"), ("certainty", "whenCertainty")):
+        m = re.search(r"pub fn %s\(self, (\w+): Self\) -> Self \{" % fn, query)
+        if not m: fail("When::" + fn)
+        e = fn_match(query, r"pub fn %s\(self, \w+: Self\) -> Self \{" % fn, "When::" + fn)
+        tab = {}
+        try:
+            for x, y in itertools.product(WN, WN):
+                v = meval(e, {"self": x, m.group(1): y})
+                if v not in WN: fail("When::%s: unexpected value %r" % (fn, v))
+                tab[(x, y)] = v
+        except (ValueError, KeyError) as ex:
+            fail("When::%s: %s" % (fn, ex))
+        out.append("def %s : List (W × W × W) := [" % name + ", ".join("(.%s, .%s, .%s)" % (wl[a], wl[b], wl[tab[(a, b)]]) for a in WN for b in WN) + "]")
+    return out
+
+def const_tables():
+    enc = read("encode.rs")
+    m = re.search(r'const NEVER_EXPRESSION: &str = "((?:[^"\\]|\\.)*)";', enc)
+    if not m: fail("NEVER_EXPRESSION")
+    never_expr = m.group(1)
+    m = re.search(r'#\[cfg\(unix\)\]\s*const SEPARATOR_CLASS_EXPRESSION: &str = "((?:[^"\\]|\\.)*)";', enc)
+    if not m: fail("SEPARATOR_CLASS_EXPRESSION (unix)")
+    sep_class = m.group(1)
+    m = re.search(r'pub const ROOT_SEPARATOR_EXPRESSION: &str = "((?:[^"\\]|\\.)*)";', parse)
+    if not m: fail("ROOT_SEPARATOR_EXPRESSION")
+    root_sep = m.group(1)
+    tokmod = read("token/mod.rs")
+    m = re.search(r'pub fn is_semantic_literal\(&self\) -> bool \{\s*matches!\(self\.text\(\)\.as_ref\(\), ((?:"[^"]*"\s*\|?\s*)+)\)', tokmod)
+    if not m: fail("is_semantic_literal")
+    sem_lits = re.findall(r'"([^"]*)"', m.group(1))
+    return ["def neverExpression : String := %s" % lstr(never_expr), "def separatorClassExpression : String := %s" % lstr(sep_class),
+            "def rootSeparatorExpression : String := %s" % lstr(root_sep), "def semanticLiterals : List String := [%s]" % ", ".join(lstr(x) for x in sem_lits)]
+
+files = {"Generated": "\n".join(core) + "\n",
+         "GeneratedChars": module("GeneratedChars", [("character tables", chars_tables)]),
+         "GeneratedTermn": module("GeneratedTermn", [("termination table", termn_table)]),
+         "GeneratedWhen": module("GeneratedWhen", [("When tables", when_tables)]),
+         "GeneratedConst": module("GeneratedConst", [("constants", const_tables)])}
+files.update(group_text)
+fails = dict(group_fail)
+for k, v in table_fail.items():
+    fails.setdefault(k, []).extend(v)
+
 if "--dir" in sys.argv:
     import json
     d = sys.argv[sys.argv.index("--dir") + 1]
     changed = []
-    for name, text in [("Generated", tables)] + sorted(group_text.items()):
+    for name, text in sorted(files.items()):
         path = os.path.join(d, name + ".lean")
         old = open(path, encoding="utf-8").read() if os.path.exists(path) else None
         if old is None or old.rstrip("\n") != text.rstrip("\n"):
             open(path, "w", encoding="utf-8").write(text)
             changed.append(name)
-    print(json.dumps({"changed": changed, "untranslatable": group_fail}))
+    print(json.dumps({"changed": changed, "untranslatable": fails, "files": sorted(files)}))
 else:
-    print(tables, end="")
-    for g in sorted(group_text):
+    for g in sorted(files):
         print("-- ==== Wax/%s.lean" % g)
-        print(group_text[g], end="")
-    for g, why in group_fail.items():
+        print(files[g], end="")
+    for g, why in fails.items():
         print("TRANSLATE-FAIL %s: %s" % (g, "; ".join(why)))
